@@ -21,6 +21,8 @@ class Ctx:
     def __init__(self, repo: Optional[str] = None):
         self.prog = Program(repo)
         self.calls = Calls(self.prog)
+        from .inline import Inliner
+        self.prog.inliner = Inliner(self.prog, self.calls)
         self.facts = FactEngine(self.prog, self.calls)
 
 
@@ -114,6 +116,13 @@ class Check:
                 if all(k.get(f) == getattr(o, f) for f in ('rule', 'construct', 'kind')) and k.get('expr', '') == o.expr:
                     hit = (i, k)
                     break
+            if hit is None:
+                # the same construct after a behaviour-preserving restructuring (renamed local, inverted if, flattened
+                # try/else): same rule, function and kind, same callee, same handler context
+                for i, k in enumerate(mine):
+                    if all(k.get(f) == getattr(o, f) for f in ('rule', 'construct', 'kind')) and reduced_key(k.get('expr', '')) == reduced_key(o.expr):
+                        hit = (i, k)
+                        break
             if hit is not None:
                 o.verdict = 'KNOWN'
                 o.finding_id = hit[1].get('id')
@@ -193,6 +202,29 @@ class Check:
         os.makedirs(os.path.join(VERIF, 'evidence'), exist_ok=True)
         with open(os.path.join(VERIF, 'evidence', f'{self.pid}.json'), 'w') as fh:
             json.dump(ev, fh, indent=1, default=str)
+
+
+def reduced_key(expr: str):
+    """(callee without arguments, innermost handler context) of an obligation's ``<statement> @ <structural path>`` text."""
+    stmt, _, path = expr.partition(' @ ')
+    callee = stmt
+    try:
+        tree = ast.parse(stmt.strip(), mode='exec').body
+        node = tree[0] if tree else None
+        val = getattr(node, 'value', None)
+        if isinstance(val, ast.Await):
+            val = val.value
+        if isinstance(val, ast.Call):
+            callee = norm(val.func)
+        elif isinstance(node, ast.Assign):
+            callee = 'assign ' + norm(node.targets[0])
+    except SyntaxError:
+        pass
+    ctx = ''
+    for part in path.split('>'):
+        if part == 'finally' or part.startswith('except'):
+            ctx = part
+    return callee, ctx
 
 
 def structural_path(func: FuncInfo, node: ast.AST) -> str:
